@@ -55,6 +55,11 @@ def one(ctx, doc, insts, tag):
         w = window_oracle(doc, o["decoded"])
         if w != found:
             raise RuntimeError("Lean specification and Python window oracle disagree: %r" % (patdiff.case_of(o),))
+        # whole-operation tie (theorem C01_pipeline is about `runOp`): rule file + listing file -> Boolean
+        whole = model.outcome(ctx.driver.call({"op": "run", "doc": model.y2j(doc), "macroDocs": [], "kind": "assembly",
+                                                 "text": o["text"], "mode": "first", "addrOnly": False, "ret": "bool"}))
+        if whole[0] != "unsup" and (whole[0] != "ok" or ("ok", whole[1]) != o["impl_bool"]):
+            rep.disagree("T6-whole-operation", patdiff.case_of(o), o["impl_bool"], whole)
     rep.case(patdiff.case_of(o), nontrivial, tags=(tag, "items=%d" % len(doc["pattern"])))
 
 
